@@ -277,11 +277,12 @@ class Runner:
                     ev = slots.get(ins[1])
                     if ev is not None and isinstance(ev, Process):
                         alive, selfi = ev.is_alive, ev is me[0]      # "oneself" = the Process this generator runs in
+                        busy = ev.target is not None and ev.target.callbacks is None     # the victim's awaited event is being processed right now
                         try:
                             ev.interrupt(ins[2])
-                            self.hook('interrupt', name, ev, ins[2], alive, selfi, False, me[0])
+                            self.hook('interrupt', name, ev, ins[2], alive, selfi, False, me[0], busy)
                         except RuntimeError:
-                            self.hook('interrupt', name, ev, ins[2], alive, selfi, True, me[0])
+                            self.hook('interrupt', name, ev, ins[2], alive, selfi, True, me[0], busy)
                             raise
                 elif op == 'probe':
                     ev = slots.get(ins[1])
